@@ -102,7 +102,7 @@ def jobs_C01(tier, seed):
     ts = (1, 2, 3, 4, 6) if tier == 'quick' else range(1, 7)
     cs = (1, 2, 3, 5) if tier == 'quick' else range(1, 6)
     kinds = [('path', 0, False), ('seekable', 0, False), ('seekable', 1, False), ('seekable', 3, False),
-             ('nonseekable', 0, False), ('nonseekable', 0, True)]
+             ('nonseekable', 0, False), ('nonseekable', 0, True), ('duck', 2, False)]
     for (src, start, psize) in kinds:
         for mp in (3, 1000):
             scns = []
@@ -255,6 +255,12 @@ def jobs_C04(tier, seed):
                  ('up-single-path', 'delete')):
         s = scn(copy.deepcopy(bt[a]) + copy.deepcopy(bt[b]), cfg(**ones), seed=seed)
         jobs.append(job(f'pair {a}+{b} all-ones', s, BD(tier)['PLAIN'], want, max_execs=100000))
+    # three transfers sharing a manager with a 1-slot request queue; one fails while shutdown() waits
+    for subc in (1, 3):
+        trs = [T_del('o3'), T_del('o4'), T_del('o5')]
+        s = scn(trs, cfg(max_request_queue_size=1, max_request_concurrency=1, max_submission_concurrency=subc),
+                seed=seed, script='shutdown', faults={'sites': ['s3:'], 'only_key': 0})
+        jobs.append(job(f'three deletes, first fails, shutdown, subconc={subc}', s, BD(tier)['FAULT'], want, max_execs=300000))
     # (ii) all-ones and all-twos at k<=1 (quick) / 2 (thorough)
     for name in core:
         for lim in (ones, {k: 2 for k in ones}):
@@ -464,6 +470,11 @@ def jobs_C11(tier, seed):
                                                 max_request_concurrency=2), seed=seed)
                 jobs.append(job(f'up chunks={chunks} subc={subc} n={len(trs)} {trs[0]["src"]}', s, k, want,
                                 max_execs=40000 if tier == 'quick' else 600000))
+    for chunks in (1, 2):
+        trs = [T_up('nonseekable', 3) for _ in range(4)]
+        s = scn(trs, cfg(max_in_memory_upload_chunks=chunks, max_submission_concurrency=1, max_request_concurrency=1,
+                         max_request_queue_size=4), seed=seed)
+        jobs.append(job(f'up single-request streams x4 chunks={chunks}', s, k, want, max_execs=100000))
     for win in (1, 2, 3):
         for ioq in (1, 2):
             for trs in ([T_dl('nonseekable', 'o8')], [T_dl('nonseekable', 'o8'), T_dl('nonseekable', 'o7')]):
